@@ -3,7 +3,7 @@
 Functions under contract (real code, re-read on every run):
   semantiva/trace/delta_collector.py :: DeltaCollector.compute, _stable_equal
   semantiva/execution/orchestrator/orchestrator.py :: _build_pre_checks, _build_post_checks, _type_check_entry,
-        _normalize_expected, _extract_context_delta_lists, _resolve_params_with_sources, _context_snapshot,
+        _normalize_expected, _extract_context_delta_lists, _resolve_params_with_sources, _context_snapshot, _data_summary,
         _iso_now, _start_timing, _end_timing
   semantiva/trace/drivers/jsonl.py :: JsonlTraceDriver._now_timestamp
 Top-level postconditions are transcribed from the property statement.
@@ -109,6 +109,15 @@ class Spec(BaseSpec):
             I.st.assume(z3.Or(r == NONE, V.is_int(r)))
             return r
         return MISSING
+
+    def obj_len(self, I, v):
+        # len() of a user object: some non-negative size, or any Exception (TypeError when absent, OverflowError, ...)
+        st = I.st
+        if st.choose(2, "len ok?") == 0:
+            n = fresh("len", I_)
+            st.assume(n >= 0)
+            return vint(n)
+        raise PyRaise(self.some_exception(I, "len(obj)"))
 
     def some_exception(self, I, origin):
         c = fresh("exc_cls", I_)
@@ -579,6 +588,40 @@ def h_params_sources(spec):
     E.run_function(spec, "_resolve_params_with_sources", body)
 
 
+def h_data_summary(spec):
+    """_data_summary: what a SER says about the data is a function of that data and of the trace options - sha256 = Sha(Ser(data)),
+    repr = ReprOf(data), recorded exactly when the option is on (and serialisation succeeded), empty when neither option is on;
+    nothing is remembered between calls (no attribute of the orchestrator is read or written)."""
+    fn_info(spec, ORCH, "SemantivaOrchestrator._data_summary")
+
+    def body(I):
+        st = I.st
+        me = V.obj(z3.Int("orchestrator"))          # opaque: any attribute read or write on it is outside the contract
+        data = V.obj(z3.Int("payload_data"))
+        opts = in_dict(I, "trace_opts")
+        for k_ in ("hash", "repr"):
+            v_ = z3.Select(dval(st.h, opts), vstr(k_))
+            st.assume(z3.Implies(z3.Select(ddom(st.h, opts), vstr(k_)), V.is_bool(v_)))
+        on = lambda k_: z3.And(z3.Select(ddom(st.h, opts), vstr(k_)), z3.Select(dval(st.h, opts), vstr(k_)) == vbool(z3.BoolVal(True)))
+        want_hash, want_repr = on("hash"), on("repr")
+        h0 = st.h.copy()
+        _, f = E.method_of(I, ORCH, "SemantivaOrchestrator", "_data_summary")
+        out = E.execute(I, f, [me, data, opts])
+        if out[0] != "return":
+            spec.oblige(I, "_data_summary/never-raises", z3.BoolVal(False))
+            return
+        res, h = out[1], st.h
+        has = lambda k_: z3.Select(ddom(h, res), vstr(k_))
+        get = lambda k_: z3.Select(dval(h, res), vstr(k_))
+        spec.oblige(I, "_data_summary/empty-when-neither-hash-nor-repr-is-requested", z3.Implies(z3.And(z3.Not(want_hash), z3.Not(want_repr)), z3.Select(h.dlen, V.id(res)) == 0))
+        spec.oblige(I, "_data_summary/sha256-is-the-digest-of-this-data's-serialisation", z3.Implies(has("sha256"), z3.And(want_hash, SerOk(data), get("sha256") == Sha(Ser(data)))))
+        spec.oblige(I, "_data_summary/sha256-recorded-whenever-requested-and-serialisable", z3.Implies(z3.And(want_hash, SerOk(data)), has("sha256")))
+        spec.oblige(I, "_data_summary/repr-is-the-repr-of-this-data", z3.And(z3.Implies(has("repr"), z3.And(want_repr, get("repr") == vstr(core.ReprOf(data)))),
+                                                                              z3.Implies(want_repr, has("repr"))))
+        spec.oblige(I, "_data_summary/options-untouched", frame_eq(h0, h, 0))
+    E.run_function(spec, "_data_summary", body)
+
+
 def h_context_snapshot(spec):
     fn_info(spec, ORCH, "SemantivaOrchestrator._context_snapshot")
 
@@ -648,7 +691,7 @@ def t_params_sources(spec):
     spec.assumptions |= s2.assumptions
 
 
-TASKS = [h_stable_equal, h_compute, h_pre_checks, h_post_checks, h_iso_now, h_timing, h_context_snapshot, h_canonical_json, t_params_sources]
+TASKS = [h_stable_equal, h_compute, h_pre_checks, h_post_checks, h_iso_now, h_timing, h_context_snapshot, h_canonical_json, t_params_sources, h_data_summary]
 
 
 def factory():
